@@ -43,6 +43,7 @@ class Responder:
         self.world = world
         self.spec = spec
         self.addr = (spec["ip"], SPA_PORT)
+        self.reply_addr = (spec["ip"], spec.get("reply_port", SPA_PORT))
         self.ident = spec["ident"].encode("latin1")
         self.name = spec["name"]
         # the reply is built here, independently of the library's encoder: <HELLO>identifier|name</HELLO>, name in latin-1
@@ -58,7 +59,7 @@ class Responder:
         replies = self.spec["replies"]
         if k < len(replies):
             for d in replies[k]:
-                self.world.net.inject(self.addr, src, self.payload, delay=d, who="responder")
+                self.world.net.inject(self.reply_addr, src, self.payload, delay=d, who="responder")
 
 
 def scenario(world: WorldT) -> None:
@@ -142,8 +143,11 @@ def scenario(world: WorldT) -> None:
             world.violate(PROP, "phantom-spa", f"{label} listed {ident!r} but no reply of it had arrived ({ctx})")
         if d.name != name:
             world.violate(PROP, "name-mangled", f"{label} spa {ident!r} listed with name {d.name!r}, it sent {name!r} ({ctx})")
-        if tuple(d.destination) != (ip, SPA_PORT):
-            world.violate(PROP, "address-mangled", f"{label} spa {ident!r} listed at {d.destination}, it answered from {(ip, SPA_PORT)} ({ctx})")
+        came_from = tuple(first[ident][1])
+        if came_from[1] != SPA_PORT:
+            res.probe("reply_from_another_port")
+        if tuple(d.destination) != came_from:
+            world.violate(PROP, "address-mangled", f"{label} spa {ident!r} listed at {d.destination}, it answered from {came_from} ({ctx})")
     # listing is judged on what the locator held when start_discovery returned (later replies may still be appended until close)
     for ident, (t, src) in first.items():
         if t + 2 * ITER + 0.01 <= T_ret and ident not in ids:
